@@ -224,6 +224,26 @@ def build():
                     ("step", lambda bank: ([n3(Sq), z3.substitute(n1(Sq), (nq, node(xq))), z3.substitute(n2(Sq), (x, xq)), tail_canon], n3(mk_cons(xq, Sq))))], P,
                    uses=["nodup-cons"],
                    note="a repetition-free list of recorded positions lists every node at most once (instances of the two lemmas above are hypotheses of the step)"))
+    # ---- the statement in the property's words: the nodes findall lists are exactly the members that match ----------------------------------------------
+    h2 = lambda s_: z3.Implies(z3.And(canon_all(s_), has_node.t(s_, nq)), z3.And(intree(T, nq), z3.Contains(s_, z3.Unit(pos(nq)))))
+    L.append(Lemma("listed-node-has-its-recorded-position-listed",
+                   [("base", lambda bank: ([], h2(EX))), ("step", lambda bank: ([h2(Sq), tail_canon], h2(mk_cons(xq, Sq))))], P))
+    h3 = lambda s_: z3.Implies(z3.Contains(s_, z3.Unit(x)), has_node.t(s_, node(x)))
+    L.append(Lemma("listed-position-lists-its-node", [("base", lambda bank: ([], h3(EX))), ("step", lambda bank: ([h3(Sq)], h3(mk_cons(xq, Sq))))], P))
+    Tl = TD.t(rev.t(Er), d)            # the final work list for the reversed element list Er (non-empty)
+
+    def corollary(bank):
+        agree_all = z3.ForAll([wq], agree(Er, wq), patterns=[in_pos.t(Tl, wq)])                   # searches-agree, for every position
+        hyps = [agree_all, in_pos_def,
+                z3.substitute(n1(Sq), (Sq, Tl)),                                                # node-listed-iff-position-present at S := Tl
+                z3.substitute(h2(Sq), (Sq, Tl)),                                                # listed-node-has-its-recorded-position-listed
+                z3.substitute(h3(Sq), (Sq, Tl), (x, pos(nq)))]                                  # listed-position-lists-its-node at x := pos(n)
+        return hyps, z3.Contains(nodes_of.t(Tl), z3.Unit(nq)) == z3.And(intree(T, nq), MX.t(T, nq, Er))
+
+    L.append(Lemma("findall-lists-exactly-the-matching-members", [("direct", corollary)], P,
+                   note="n is among the nodes of the final work list  <=>  n is a member of the tree and MX holds for n over the reversed element list -- i.e. findall(root) "
+                        "yields exactly the nodes for which match(root, n) is True (each once: each-node-once). Hypotheses: searches-agree for every position and "
+                        "instances of the three listing lemmas"))
     world.trusted_notes.clear()
     world.trusted_notes.append(
         "tree_consistent(T, r, d), hypothesis of the agreement lemmas (what C06 proves about Tree.__init__, restated over positions): the child entries of a tree node w are exactly "
